@@ -441,6 +441,13 @@ impl<'a, 'ast> Visit<'ast> for V<'a> {
                     } else if ids.len() == 2 && ids[0] == "Array" {
                         let (a, b) = rng(&p.path.segments[0]);
                         self.ed.replace(a, b, "VecArray".into(), "T2");
+                    } else if ids.len() >= 3 && ids[0] == "crate" && self.cfg.subst.contains_key(&ids[..ids.len() - 1].join("::")) {
+                        // associated function of a crate-qualified type: whole-path substitution of the type part, as for types
+                        let sub = self.cfg.subst.get(&ids[..ids.len() - 1].join("::")).cloned().unwrap();
+                        let n = p.path.segments.len();
+                        let plo = rng(&p.path).0;
+                        let ty_hi = rng(&p.path.segments[n - 2].ident).1;
+                        self.ed.replace(plo, ty_hi, sub, "T1");
                     } else if ids.len() >= 2 {
                         if let Some(s) = self.cfg.subst.get(&ids[0]).cloned() {
                             if p.path.segments[0].arguments.is_none() {
